@@ -17,7 +17,7 @@ KINDS = {
     'vdot': ('same_sector', 'self', 'diff_sector', 'left_fold', 'offset_sector'),
     'norm': ('norm',),
     'avg': ('zero_boundary', 'charged_boundary', 'left_fold'),
-    'inner': ('connected', 'same_sector'),
+    'inner': ('connected', 'same_sector', 'offset_sector'),
     'density': ('connected', 'zero_boundary'),
     'env1': ('random', 'herm', 'model', 'braket'),
     'env2': ('random', 'herm', 'model'),
@@ -248,8 +248,13 @@ def run_case(c):
             if ok:
                 k.scalar('operator_average', 'dense', got, ref, sc_, '<psi|op|psi>')
     elif kind == 'inner':
-        if var == 'connected':
+        if var in ('connected', 'offset_sector'):
             sp, sc, so = k.connected()
+            if var == 'offset_sector':
+                # the same three sectors with the bond charges of every object shifted by its own constant (non-zero leading charges):
+                # only the differences between trailing and leading charge matter, the matrix element is generically non-zero
+                s1, s2, s3 = (int(x) for x in rng.choice([-2, -1, 1, 2, 3], 3))
+                sp = (sp[0] + s1, sp[1] + s1); sc = (sc[0] + s2, sc[1] + s2); so = (so[0] + s3, so[1] + s3)
         else:
             sp = H.pick_sector(rng, k.qd, L); sc = sp; so = (0, 0)
         psi, chi, op = k.mps(*sp), k.mps(*sc), k.mpo(*so)
